@@ -338,7 +338,7 @@ class RepoModule(object):
 
 
 BUILTIN_EXC = set(EXC_BASES)
-EXTERNAL_MODULES = ('pyvc', 'numpy', 'scipy', 'warnings', 'copy', 'string', 'itertools', 'functools', 'contextlib', 'math', 'pint',
+EXTERNAL_MODULES = ('pyvc', 'numpy', 'scipy', 'warnings', 'copy', 'string', 'itertools', 'functools', 'contextlib', 'operator', 'math', 'pint',
                     'enum', '__future__', 'os', 'pytest')
 
 
@@ -349,6 +349,16 @@ class Program(object):
         self.repo = repo
         self.modules = {}
         self.extra_roots = {}     # dotted prefix -> directory (for contract files)
+
+    def own_roots(self):
+        if getattr(self, '_own', None) is None:
+            self._own = set(self.extra_roots)
+            for e in os.listdir(self.repo):
+                if os.path.isfile(os.path.join(self.repo, e, '__init__.py')):
+                    self._own.add(e)
+                elif e.endswith('.py'):
+                    self._own.add(e[:-3])
+        return self._own
 
     def find(self, dotted):
         parts = dotted.split('.')
@@ -526,7 +536,9 @@ class Interp(object):
             return SModule(dotted)
         m = self.prog.load(dotted)
         if m is None:
-            raise Unsupported('cannot import %s' % dotted)
+            if root in self.prog.own_roots():
+                raise Unsupported('cannot import %s' % dotted)
+            return SModule(dotted)       # not part of the library: an external module (calls into it need a model)
         self.module_env(m)
         return m
 
@@ -725,19 +737,17 @@ class Interp(object):
             tst = node.test
             if isinstance(tst, ast.UnaryOp) and isinstance(tst.op, ast.Not):
                 tst = tst.operand
-            def resolve(name, env=env):
-                try:
-                    me = env.lookup('self')
-                except KeyError:
-                    return None
-                f = self.find_method(me.cls, name) if isinstance(me, SObj) else None
-                return f.node if f is not None else None
+            resolve = self._method_resolver(env)
             if isinstance(tst, ast.Name) and _warn_only_if(node, resolve):
                 self.lookup(tst.id, env)
                 return       # the branch only builds and emits a warning (no-op, DESIGN 2.1): no case split
             c = yield from self.ev(tst, env)
-            if is_sym(c) and isinstance(tst, ast.Call) and _warn_only_if(node, resolve):
-                return       # `if [not] np.any(...): <warn>`: test evaluated (it may raise), no case split
+            if is_sym(c) and _warn_only_if(node, resolve):
+                return       # `if [not] <test>: <warn>`: test evaluated (it may raise), no case split
+            if is_sym(c) and getattr(self, 'quiet_yields', 0) and not node.orelse and \
+                    all(isinstance(b, ast.Expr) and isinstance(b.value, ast.Yield) and
+                        (b.value.value is None or _pure_message_expr(b.value.value)) for b in node.body):
+                return       # `if <symbolic>: yield item` feeding a loop that only warns
             if self.truth(c) != (tst is not node.test):          # `not x` is `not truth(x)`
                 yield from self.exec_block(node.body, env)
             else:
@@ -835,6 +845,16 @@ class Interp(object):
         else:
             yield from self.exec_block(node.orelse, env)
 
+    def _method_resolver(self, env):
+        def resolve(name, env=env):
+            try:
+                me = env.lookup('self')
+            except KeyError:
+                return None
+            f = self.find_method(me.cls, name) if isinstance(me, SObj) else None
+            return f.node if f is not None else None
+        return resolve
+
     def exec_with(self, node, k, env):
         """`with a as x, b as y: body`: opaque library managers (np.errstate, warnings.catch_warnings) have no effect on
         values; an object of the library with __enter__/__exit__ is run as Python does; anything else is refused."""
@@ -901,8 +921,24 @@ class Interp(object):
             yield from self.exec_sum_loop(node, env, it)
             return
         loop = self.iterate(it)
+        quiet = False
+        if isinstance(loop, SGen) and not node.orelse:
+            wo = getattr(node, '_warn_only_body', None)
+            if wo is None:
+                fake = ast.If(test=ast.Constant(True), body=node.body, orelse=[])
+                wo = node._warn_only_body = bool(_warn_only_if(fake, self._method_resolver(env)))
+            quiet = wo
         while True:
-            item = yield from self.next_item(loop)
+            if quiet:
+                # the consumer only emits warnings: whether the generator yields an item under a *symbolic* condition
+                # is unobservable, so such conditional yields are not case-split (see the If rule)
+                self.quiet_yields = getattr(self, 'quiet_yields', 0) + 1
+                try:
+                    item = yield from self.next_item(loop)
+                finally:
+                    self.quiet_yields -= 1
+            else:
+                item = yield from self.next_item(loop)
             if item is END:
                 break
             yield from self.assign(node.target, item, env)
@@ -1321,6 +1357,8 @@ class Interp(object):
             return {'True': True, 'False': False, 'None': None}[name]
         if name == 'PI':
             return PI
+        if name == '__debug__':
+            return True          # assert statements are executed (assumption A_ASSERT: not run under python -O)
         if ('builtins.' + name) in self.models:
             return SBuiltin('builtins.' + name)
         raise Unsupported('unknown name %s' % name)
@@ -1849,7 +1887,13 @@ class Interp(object):
                     raise SymRaise('IndexError', 'boolean index did not match')
             return SMasked(m, m.snapshot(self.st), a.snapshot(self.st), a.shape, a.dtype)
         if any(isinstance(k, (SArr, list)) for k in key):
-            raise Unsupported('fancy indexing')
+            plan = self._fancy_plan(a, key)
+            sa = a.snapshot(self.st)
+            m = plan['m']
+
+            def fn(idx, plan=plan, sa=sa):
+                return sa(self._fancy_source(plan, idx))
+            return self.st.new_array(plan['shape'], fn, a.dtype)      # advanced indexing returns a copy
         if len(key) > len(a.shape):
             raise SymRaise('IndexError', 'too many indices')
         key = tuple(key) + (slice(None),) * (len(a.shape) - len(key))
@@ -1926,10 +1970,93 @@ class Interp(object):
             return a.elem(self.st, tuple(sp[1] for sp in spec))
         return SArr(a.token, tuple(newshape), fwd, inv, a.dtype)
 
+    def _fancy_plan(self, a, key):
+        """Integer-array indexing a[:, I, J, ...]: full slices and one run of adjacent 1-D integer index arrays of the
+        same *concrete* length m (np.arange(rank), np.triu_indices(rank), lists).  Result dims: the sliced dims with
+        the run replaced by one dim of length m (numpy's rule for adjacent advanced indices)."""
+        key = tuple(key) + (slice(None),) * (len(a.shape) - len(key))
+        if len(key) != len(a.shape):
+            raise SymRaise('IndexError', 'too many indices')
+        adv = [d for d, k in enumerate(key) if isinstance(k, (SArr, list))]
+        if adv != list(range(adv[0], adv[-1] + 1)):
+            raise Unsupported('fancy indexing with separated index arrays')
+        idxs = []
+        m = None
+        for d in adv:
+            k = key[d]
+            k = self.as_array(k) if isinstance(k, list) else k
+            if k.dtype != 'int' or len(k.shape) != 1 or is_sym(k.shape[0]):
+                raise Unsupported('fancy indexing with a non-integer / symbolic-length index array')
+            if m is None:
+                m = int(k.shape[0])
+            elif int(k.shape[0]) != m:
+                raise SymRaise('IndexError', 'shape mismatch: indexing arrays could not be broadcast together')
+            ks = k.snapshot(self.st)
+            idxs.append([ks((j,)) for j in range(m)])
+        for d, k in enumerate(key):
+            if d not in adv and not (isinstance(k, slice) and k.start is None and k.stop is None and k.step is None):
+                raise Unsupported('fancy indexing combined with partial slices / integers')
+        shape = tuple(a.shape[:adv[0]]) + (m,) + tuple(a.shape[adv[-1] + 1:])
+        return {'adv': adv, 'idxs': idxs, 'm': m, 'shape': shape, 'ndim': len(a.shape)}
+
+    def _fancy_source(self, plan, idx):
+        """Index into the indexed array for result index `idx`."""
+        adv, idxs, m = plan['adv'], plan['idxs'], plan['m']
+        j = idx[adv[0]]
+        out = list(idx[:adv[0]])
+        for col in idxs:
+            if is_sym(j):
+                t = col[m - 1]
+                for q in range(m - 2, -1, -1):
+                    t = mk_ite(mk_eq(j, q), col[q], t)
+                out.append(t)
+            else:
+                out.append(col[int(j)])
+        out.extend(idx[adv[0] + 1:])
+        return tuple(out)
+
+    def _fancy_store(self, a, key, v):
+        plan = self._fancy_plan(a, key)
+        adv, idxs, m = plan['adv'], plan['idxs'], plan['m']
+        if isinstance(v, SArr):
+            shape, mappers = self.broadcast([plan['shape'], v.shape])
+            if len(shape) != len(plan['shape']):
+                raise SymRaise('ValueError', 'shape mismatch: value array could not be broadcast to indexing result')
+            for x, y in zip(shape, plan['shape']):
+                if not self.dims_equal(x, y):
+                    raise SymRaise('ValueError', 'shape mismatch: value array could not be broadcast to indexing result')
+            vs, mp = v.snapshot(self.st), mappers[1]
+
+            def val_at(ridx):
+                return vs(mp(ridx))
+        elif is_num(v) or is_boolish(v):
+            def val_at(ridx):
+                return v
+        else:
+            raise Unsupported('fancy-index assignment of %r' % (v,))
+
+        def hit(vi, j):
+            return mk_and(*[mk_eq(vi[d], idxs[n][j]) for n, d in enumerate(adv)])
+
+        def cond(vi):
+            return mk_or(*[hit(vi, j) for j in range(m)])
+
+        def val(vi):
+            out = None
+            for j in range(m):              # numpy: for repeated index tuples the last assignment wins
+                ridx = tuple(vi[:adv[0]]) + (j,) + tuple(vi[adv[-1] + 1:])
+                x = val_at(ridx)
+                out = x if out is None else mk_ite(hit(vi, j), x, out)
+            return out
+        store_write(self.st, a, val, condfn=cond)
+
     def arr_setitem(self, a, key, v):
         v = self.unopt(v)
         if isinstance(v, (list, tuple)):
             v = self.as_array(v)
+        if isinstance(key, tuple) and any(isinstance(k, (SArr, list)) and not (isinstance(k, SArr) and k.dtype == 'bool') for k in key):
+            self._fancy_store(a, key, v)
+            return
         tgt = self.arr_index(a, key) if not (isinstance(key, tuple) and len(key) == 0) else a
         if isinstance(tgt, SMasked):
             m = tgt
